@@ -58,7 +58,7 @@ RULE = ("sub-space E: all expression trees with 1, 3, 5 (quick) / 1, 3, 5, 7 (th
         "fluent leaves numbered in first-occurrence order (<= 4 distinct, names rotated over 5 spellings), "
         "constants {0,1,-1,2,3,0.5,-0.25} (5-node trees, quick: {2,0.5,-1} with (non-constant, constant) operand "
         "order for + and *; 7-node trees: {2,-0.25}, same order rule), syntactic degree <= 3, divisor a non-zero "
-        "constant / fluent / product of two fluents, no constant-only subtrees (plus 4 constant-only expressions); "
+        "constant / fluent / product of two fluents, no constant-only subtrees (plus 4 constant-only expressions and 5 with a constant-only operand such as x*(5-2)); "
         "each as a bare expression and as lhs of a condition with rhs rotating over {0, 1, 0.5, a used fluent, a "
         "new fluent} and operator rotating over < <= > >= plus '=' always (all 5 operators and 3 rhs for <= 3 "
         "nodes); digits {4,6} (quick) / {4,5,6} (thorough). sub-space R: c*x, c*x*y, c*x+k, c*x+c'*y with c from "
@@ -140,9 +140,13 @@ def _expr_cases(tier):
                        "rhs": G.instantiate(rhs, names), "ops": ops, "digits": digits,
                        "bare": k == 0, "tags": ["E", f"n{n}"]}
             idx += 1
-    for t in (["+", "2", "1"], ["*", "0.5", "3"], ["-", "1", "1"], ["/", "3", "2"]):
-        yield {"kind": "expr", "sub": "E", "expr": t, "rhs": list(FLUENTS[idx % 5]), "ops": ["<=", "="],
-               "digits": digits, "bare": True, "tags": ["E", "const"]}
+    f = ["$", 0]
+    for t in (["+", "2", "1"], ["*", "0.5", "3"], ["-", "1", "1"], ["/", "3", "2"],
+              ["*", f, ["-", "5", "2"]], ["*", f, ["+", "1", "2"]], ["+", f, ["-", "3", "1"]], ["-", ["-", "3", "1"], f],
+              ["*", f, ["-", "0.5", "2"]]):
+        names = _names(idx % 5)
+        yield {"kind": "expr", "sub": "E", "expr": G.instantiate(t, names), "rhs": G.instantiate(["$", 1], names),
+               "ops": ["<=", "="], "digits": digits, "bare": True, "tags": ["E", "const"]}
         idx += 1
 
 
@@ -623,6 +627,8 @@ def raised_tags(got: Raised):
         tags.append("rational-coefficient")
     elif got.type == "KeyError" and "Infinity" in m:
         tags.append("division-by-zero")
+    elif got.type == "KeyError" and "<class" not in m and m.strip("'\"") not in ALL_OPS:
+        tags.append("compound-power-base")
     elif got.type == "AttributeError" and "Boolean" in m:
         tags.append("constant-truth-value")
     elif got.type == "AttributeError" and "NoneType" in m:
@@ -806,42 +812,48 @@ def judge_set(ctx: Ctx, entry, inputs, got, d, exact_space):
                  base_tags + ["operator"])
         return
     has_eq = any(c.op == "=" for c in inputs)
-    # the requested digits apply to every printed numeral
-    rad = Fraction(0) if exact_space else radius(d)
+    # exact mode only where no rounding can occur: exact sub-space and every input coefficient has <= d decimals
+    exact = exact_space and all(representable(c.nf, d) for c in inputs)
     in_trees = [c.tree for c in inputs]
     hazard = defect_tags(in_trees, d, False)
-    clause = "inequivalent-exact" if exact_space else "inequivalent-rounding"
+    clause = "inequivalent-exact" if exact else "inequivalent-rounding"
 
     # coefficient line: printed equalities against input equalities; everything when nothing is eliminated
-    def matches(o, c):
+    def match(o, c):
+        """None / "exact" / "rounded": is o a (rounded) multiple of c?"""
         if o.op != c.op:
-            return False
-        j = Judgement(c, o, d, exact_space)
-        return j.coefficient_ok()
+            return None
+        return Judgement(c, o, d, exact).mode
     for o in outs:
         if o.op != "=" and has_eq:
             continue
-        if not any(matches(o, c) for c in inputs):
-            r.outcome("set-member-coefficients-differ")
-            extra = []
-            if o.op == "=" and d != 4 and any(Judgement(c, o, 4, False).coefficient_ok() for c in inputs if c.op == "="):
-                extra = ["digits-ignored"]
-            if not extra:
-                trunc = any(Judgement(c, o, d, exact_space).explained_by_truncation() for c in inputs if c.op == o.op)
-                extra = defect_tags(in_trees, d, trunc)
-            ctx.fail(clause, f"{entry} d={d}: {desc} -> {got!r}: printed member {o.text()} is not a "
-                     f"{'rounding at ' + str(d) + ' digits of a ' if not exact_space else ''}multiple of any input member",
-                     desc, got, base_tags + ["set", "coefficients"] + extra)
-            return
+        modes = {match(o, c) for c in inputs}
+        if "exact" in modes:
+            continue
+        if "rounded" in modes:
+            exact = False          # a rescaled member was rounded (1.5*y = 1 printed as y = 0.6667)
+            continue
+        r.outcome("set-member-coefficients-differ")
+        extra = []
+        if o.op == "=" and d != 4 and any(Judgement(c, o, 4, False).coefficient_ok() for c in inputs if c.op == "="):
+            extra = ["digits-ignored"]
+        if not extra:
+            trunc = any(Judgement(c, o, d, exact).explained_by_truncation() for c in inputs if c.op == o.op)
+            extra = defect_tags(in_trees, d, trunc)
+        ctx.fail(clause, f"{entry} d={d}: {desc} -> {got!r}: printed member {o.text()} is not a "
+                 f"{'rounding at ' + str(d) + ' digits of a ' if not exact else ''}multiple of any input member",
+                 desc, got, base_tags + ["set", "coefficients"] + extra)
+        return
     if not has_eq:
         for c in inputs:
             if c.op == "=" and pa.r_is_zero(c.nf):
                 continue
-            if not any(matches(o, c) for o in outs):
+            if not any(match(o, c) for o in outs):
                 r.outcome("set-member-missing")
                 ctx.fail("condition-dropped", f"{entry} d={d}: {desc} -> {got!r}: no printed member corresponds to "
                          f"{c.text()}", desc, got, base_tags + ["set"] + hazard)
                 return
+    rad = Fraction(0) if exact else radius(d)
 
     # truth line on the conjunction
     out_err = []
@@ -1002,7 +1014,7 @@ def _has(tag):
 MATCHERS = {name: _has(name) for name in (
     "rational-coefficient", "power-operator", "int-truncation", "zero-coefficient", "digits-ignored",
     "digits-type", "numeral-vs-numeral", "constant-truth-value", "no-fluent", "numeral-lhs", "none-operand",
-    "integer-subtraction-read-as-fluent")}
+    "integer-subtraction-read-as-fluent", "compound-power-base")}
 
 
 if __name__ == "__main__":
